@@ -79,12 +79,24 @@ func runC16(c *Ctx) {
 		why := "no range over Manager.allocations before the store"
 		for _, lp := range loops {
 			// body: lookup of the same key in elem.tcpConnections; hit -> return
+			// (anywhere in the loop body, provided every iteration passes it)
 			var lk *ssa.Lookup
-			for _, in := range lp.body.Instrs {
-				if l, ok := in.(*ssa.Lookup); ok {
-					if b, f, isL := fieldLoad(l.X); isL && f == tc && lp.isElem(b) && w.sameKey(l.Index, store.Key) {
-						lk = l
-					}
+			isScan := func(in ssa.Instruction) bool {
+				l, ok := in.(*ssa.Lookup)
+				if !ok {
+					return false
+				}
+				b, f, isL := fieldLoad(l.X)
+				return isL && f == tc && lp.isElem(b) && w.sameKey(l.Index, store.Key)
+			}
+			w.eachInstr(add, func(in ssa.Instruction) {
+				if isScan(in) {
+					lk = in.(*ssa.Lookup)
+				}
+			})
+			if lk != nil {
+				if ok, _ := mustPassBefore(lp.body, isScan, func(b *ssa.BasicBlock) bool { return b == lp.header }); !ok {
+					lk = nil
 				}
 			}
 			if lk == nil {
@@ -99,11 +111,27 @@ func runC16(c *Ctx) {
 			}
 			// on a hit the function returns (the body's true edge reaches a return without reaching the store)
 			hitEdgeReturns := true
-			if iff, ok := lp.body.Instrs[len(lp.body.Instrs)-1].(*ssa.If); ok {
-				_ = iff
-				tb := lp.body.Succs[0]
+			// the branch on the lookup's ok result (in whichever block of the body it sits)
+			var okBlock *ssa.BasicBlock
+			var okTrue *ssa.BasicBlock
+			for _, b := range add.Blocks {
+				iff, isIf := b.Instrs[len(b.Instrs)-1].(*ssa.If)
+				if !isIf || len(b.Succs) != 2 {
+					continue
+				}
+				for i, sb := range b.Succs {
+					for _, f := range normCond(iff.Cond, i == 0) {
+						if f.Op == "true" && f.Truth {
+							if e, isE := f.X.(*ssa.Extract); isE && e.Tuple == ssa.Value(lk) && e.Index == 1 {
+								okBlock, okTrue = b, sb
+							}
+						}
+					}
+				}
+			}
+			if okBlock != nil {
 				// feasibly: a hit may set a flag, leave the loop and return on the flag
-				if tb == store.Block() || feasibleReach(lp.body, tb, nil, store.Block()) {
+				if okTrue == store.Block() || feasibleReach(okBlock, okTrue, nil, store.Block()) {
 					hitEdgeReturns = false
 				}
 			} else {
